@@ -8,6 +8,8 @@ Every check must stay silent (exit 0) on each rewritten copy of /repo/teneva:
   flipif    if c: A else: B  ->  if not c: B else: A
   elsewrap  if c: <exit>; rest   ->  if c: <exit> else: rest
   kwargs    positional arguments of calls of teneva functions -> keywords
+  swapstmt  adjacent independent, side-effect free assignments are swapped
+  tmpvar    x = f(g(a), ..)  ->  t = g(a); x = f(t, ..)   (first argument)
 
 The copies live under a fresh temporary directory which is removed at the end.
 Usage: /venv/bin/python tools/global_twins.py [kind ...] [--props C01,C02]
@@ -151,8 +153,107 @@ class Kwargs(ast.NodeTransformer):
 
 
 TIER = ['quick']
+PURE = {'len', 'int', 'float', 'min', 'max', 'abs', 'range', 'list', 'tuple'}
+
+
+def _pure(node):
+    for c in ast.walk(node):
+        if isinstance(c, ast.Call):
+            f = c.func
+            if isinstance(f, ast.Name) and f.id in PURE:
+                continue
+            if isinstance(f, ast.Attribute) and \
+                    isinstance(f.value, ast.Name) and f.value.id == 'np' and \
+                    f.attr not in ('random',):
+                continue
+            return False
+        if isinstance(c, (ast.Yield, ast.Await, ast.NamedExpr)):
+            return False
+    return True
+
+
+def _rw(st):
+    w = {t.id for t in st.targets if isinstance(t, ast.Name)}
+    for t in st.targets:
+        if isinstance(t, ast.Tuple):
+            w |= {e.id for e in t.elts if isinstance(e, ast.Name)}
+    r = {x.id for x in ast.walk(st.value) if isinstance(x, ast.Name)}
+    return r, w
+
+
+def _simple(st):
+    if not isinstance(st, ast.Assign):
+        return False
+    for t in st.targets:
+        if isinstance(t, ast.Name):
+            continue
+        if isinstance(t, ast.Tuple) and all(isinstance(e, ast.Name)
+                                            for e in t.elts):
+            continue
+        return False
+    return _pure(st.value)
+
+
+class SwapStmt(ast.NodeTransformer):
+    def _block(self, stmts):
+        out = list(stmts)
+        i = 0
+        while i + 1 < len(out):
+            a, b = out[i], out[i + 1]
+            if _simple(a) and _simple(b):
+                ra, wa = _rw(a)
+                rb, wb = _rw(b)
+                if not (wa & (rb | wb)) and not (wb & ra):
+                    out[i], out[i + 1] = b, a
+                    i += 2
+                    continue
+            i += 1
+        return out
+
+    def generic_visit(self, node):
+        super().generic_visit(node)
+        for name in ('body', 'orelse', 'finalbody'):
+            blk = getattr(node, name, None)
+            if isinstance(blk, list) and blk and isinstance(blk[0], ast.stmt):
+                setattr(node, name, self._block(blk))
+        return node
+
+
+class TmpVar(ast.NodeTransformer):
+    def __init__(self):
+        self.n = 0
+
+    def _block(self, stmts):
+        out = []
+        for st in stmts:
+            if isinstance(st, (ast.Assign, ast.Return)) and \
+                    isinstance(st.value, ast.Call) and st.value.args and \
+                    isinstance(st.value.args[0], ast.Call) and \
+                    isinstance(st.value.func, (ast.Name, ast.Attribute)) and \
+                    not any(isinstance(x, (ast.Lambda, ast.GeneratorExp,
+                                           ast.ListComp, ast.Starred))
+                            for x in ast.walk(st.value.args[0])):
+                self.n += 1
+                name = '_tmp%d' % self.n
+                out.append(ast.Assign(
+                    targets=[ast.Name(id=name, ctx=ast.Store())],
+                    value=st.value.args[0]))
+                st.value.args[0] = ast.Name(id=name, ctx=ast.Load())
+            out.append(st)
+        return out
+
+    def generic_visit(self, node):
+        super().generic_visit(node)
+        for name in ('body', 'orelse', 'finalbody'):
+            blk = getattr(node, name, None)
+            if isinstance(blk, list) and blk and isinstance(blk[0], ast.stmt):
+                setattr(node, name, self._block(blk))
+        return node
+
+
 KINDS = {'unparse': None, 'rename': Rename, 'flipcmp': FlipCmp,
-         'flipif': FlipIf, 'elsewrap': ElseWrap, 'kwargs': Kwargs}
+         'flipif': FlipIf, 'elsewrap': ElseWrap, 'kwargs': Kwargs,
+         'swapstmt': SwapStmt, 'tmpvar': TmpVar}
 
 
 def _collect_sigs():
